@@ -261,7 +261,8 @@ CONDITIONS = [
      'thorough': 600,
      'bound': 'TWO factors at a time for the doc, styled and opt models (one '
               'slice per model and first factor)'},
-    {'fn': 'dump_ok', 'slices': list(range(len(_MODELS))), 'quick': 110,
+    {'fn': 'dump_ok', 'slices': [i for i, m in enumerate(_MODELS)
+                                 if m[0] != 'pure'], 'quick': 110,
      'thorough': 300,
      'bound': 'one slice per class model: every alternative of every factor; '
               'purity (structural snapshot), determinism (two dumps; two JSON dumps around a refused one), one '
